@@ -41,7 +41,8 @@ def c22Step (line : String) : String :=
     | some n =>
       if n < 4294967296 then
         let (a, b, c, d) := (n / 16777216, n / 65536 % 256, n / 256 % 256, n % 256)
-        showBytes (Lemmas.C22.dotted a b c d) ++ " " ++ showBytes (Lemmas.C22.mappedText a b c d)
+        showBytes (Lemmas.C22.dotted a b c d) ++ " " ++ showBytes (Lemmas.C22.mappedText a b c d) ++ " " ++
+          showBytes (Lemmas.C22.mappedHexText (n / 65536) (n % 65536))
       else "bad-op"
     | none => "bad-op"
   | ["parse", h] =>
